@@ -24,20 +24,23 @@ Record ops (T : Type) : Type := mkops {
   osqrt : T -> T;
   oleb : T -> T -> bool;    (* a <= b *)
   ofloor : T -> Z;          (* used only by Python's float % *)
-  opi : T
+  opi : T;
+  opow : T -> T -> T        (* x ** y for a positive base (only use: |c| ** (1/n) in maths.roots); a real function: it is
+                               reasoned about over R (Rpower) and never evaluated - the correspondence checks the modulus of
+                               the returned roots by its defining equation |z|^n = |c| instead *)
 }.
 Arguments oZ {T}. Arguments oadd {T}. Arguments osub {T}. Arguments omul {T}. Arguments odiv {T}.
-Arguments osqrt {T}. Arguments oleb {T}. Arguments ofloor {T}. Arguments opi {T}.
+Arguments osqrt {T}. Arguments oleb {T}. Arguments ofloor {T}. Arguments opi {T}. Arguments opow {T}.
 
 (* ------------------------------------------------------------------ the three instances *)
 Definition Rleb (a b : R) : bool := if Rle_dec a b then true else false.
 Definition Rops : ops R :=
-  mkops R IZR Rplus Rminus Rmult Rdiv R_sqrt.sqrt Rleb (fun x => (up x - 1)%Z) PI.
+  mkops R IZR Rplus Rminus Rmult Rdiv R_sqrt.sqrt Rleb (fun x => (up x - 1)%Z) PI Rpower.
 
 (* sqrt and pi do not exist in Q: sqrt-bearing definitions are never evaluated with Qops *)
 Definition Qops : ops Q :=
   mkops Q inject_Z (fun a b => Qred (a + b)) (fun a b => Qred (a - b)) (fun a b => Qred (a * b))
-        (fun a b => Qred (a / b)) (fun _ => 0%Q) Qle_bool Qfloor 0%Q.
+        (fun a b => Qred (a / b)) (fun _ => 0%Q) Qle_bool Qfloor 0%Q (fun _ _ => 0%Q).
 
 Definition ffloor (x : float) : Z :=
   match Prim2SF x with
@@ -51,7 +54,7 @@ Definition ffloor (x : float) : Z :=
 Definition fpi : float := mkf 7074237752028440 (-51).   (* math.pi *)
 Definition Fops : ops float :=
   mkops float (fun z => mkf z 0) PrimFloat.add PrimFloat.sub PrimFloat.mul PrimFloat.div PrimFloat.sqrt
-        PrimFloat.leb ffloor fpi.
+        PrimFloat.leb ffloor fpi (fun _ _ => PrimFloat.nan).
 
 (* ------------------------------------------------------------------ exceptions as values *)
 Inductive exn :=
